@@ -807,7 +807,19 @@ def parser_details(repo, rep, rule="R03.3", slash=False):
               construct="tag-name-class", detail=str(csn))
     rc = repo.const("chameleon.parser", "match_single_attribute")
     gi = _re.compile(rc.pattern, rc.flags).groupindex
-    loc = rx.locate_group(rx.parse(rc.pattern, rc.flags), gi["alt_value"])
+    # (the quote of a quoted value is recognised by the pattern -- a group
+    # of its own, closed by a back reference --, the unquoted form has its
+    # own group: a value that merely begins with a quote character is not
+    # taken for a quoted one)
+    have_q = {"quote", "value", "alt_value"} <= set(gi) and \
+        "(?P=quote)" in rc.pattern
+    rep.check(have_q, rule, "chameleon.parser.match_single_attribute",
+              "quoted and unquoted attribute values are told apart by the "
+              "pattern (groups quote / value / alt_value, closing back "
+              "reference)", construct="attribute-quote-by-pattern",
+              detail=str(sorted(gi)))
+    loc = rx.locate_group(rx.parse(rc.pattern, rc.flags),
+                          gi["alt_value"]) if "alt_value" in gi else None
     ok = False
     if loc is not None:
         for it in rx_walk(loc[0]):
@@ -1073,6 +1085,30 @@ def _verbatim(repo, rep):
     rep.check(A.show(r.out) == "[EmitText(node.value)]", "R03.4", f.qualname,
               "Text emits its value unchanged", construct="emit-text",
               where=L.where(f), detail=A.show(r.out))
+    # an end tag is written from its pieces as they were read: nothing is
+    # put in for a piece that is empty (an end tag cut off behind its name
+    # has the empty suffix, and stays cut off)
+    f = repo.func(COMP + "visit_End")
+    ems = [c for c in ast.walk(f.node) if isinstance(c, ast.Call)
+           and src(c.func) == "EmitText" and c.args]
+    oke = bool(ems)
+    for c in ems:
+        e = L.inline_locals(f.node, c.args[0])
+        parts = []
+        todo = [e]
+        while todo:
+            x = todo.pop()
+            if isinstance(x, ast.BinOp) and isinstance(x.op, ast.Add):
+                todo += [x.left, x.right]
+            else:
+                parts.append(x)
+        if not all(isinstance(x, ast.Attribute) and src(x.value) == "node"
+                   for x in parts):
+            oke = False
+    rep.check(oke, "R03.4", f.qualname, "an end tag is emitted as the sum "
+              "of its recorded pieces and nothing else",
+              construct="end-tag-verbatim", where=L.where(f),
+              detail="; ".join(src(c.args[0]) for c in ems))
     # _maybe_trim
     f = repo.func(PROG + "_maybe_trim")
     v = L.emission(repo, f.qualname).value
